@@ -50,6 +50,18 @@ FIXED = {
     # the source of a stream raises while an earlier item is still being completed
     "stream-fails-item-pending": fixed('query Q { ol @stream(initialCount:0, label:"S") { x } }', {"S": ""},
                                        force={"ol": ("value", S), "ol/0/x": ("value", G), "ol/1/x": ("value", S)}, lists={"ol": (2, True, 2)}),
+    # a named fragment with a streamed list spread at two places; at one of them the streamed field is merged with another
+    # (unlabelled, identical directive) selection that asks for more
+    "stream-in-fragment-twice-merged": fixed('query Q { o { ...F } p { ...F ol @stream(initialCount: 1) { y zx: x } } } fragment F on O { ol @stream(initialCount: 1) { x } }',
+                                             {}, force={"o": ("value", G), "p": ("value", G), "o/ol": ("value", S), "p/ol": ("value", S)},
+                                             lists={"o/ol": (2, False, None), "p/ol": (2, False, None)}, p_gate=0.0),
+    # two sibling deferred fragments on one object; the first holds a started stream next to something slow
+    "sibling-defers-stream-in-first": fixed('query Q { a ... @defer(label:"A") { slow l @stream(initialCount:1, label:"S") } ... @defer(label:"B") { b } }',
+                                            {"A": "", "B": "", "S": ""}, force={"a": ("value", S), "slow": ("value", G), "b": ("value", G), "l": ("value", S)},
+                                            lists={"l": (3, True, None)}),
+    "sibling-defers-stream-in-last": fixed('query Q { a ... @defer(label:"B") { b } ... @defer(label:"A") { slow l @stream(initialCount:1, label:"S") } }',
+                                           {"A": "", "B": "", "S": ""}, force={"a": ("value", S), "slow": ("value", G), "b": ("value", G), "l": ("value", S)},
+                                           lists={"l": (3, True, None)}),
     # a field shared by a shallow and a deeper fragment; the deeper fragment fails through another field
     "shared-field-deeper-fails": fixed('query Q { ... @defer(label:"A") { o { x slow: y } } o { y2: y ... @defer(label:"F") { x nx } } }',
                                        {"A": "", "F": ""},
@@ -108,15 +120,15 @@ def random_run(req, early, rng, stops=False, with_signal=False):
 
 
 def to_record(req, r, refs):
-    ref, refnp = refs
+    ref, refnp, refnf = refs
     refclean = req["noprop"] or not ref.errors
-    rec = increq.trace_record(req, r["payloads"], r["ended"], refnp, refclean)
+    rec = increq.trace_record(req, r["payloads"], r["ended"], refnp, refclean, refnf)
     rec["stalled"] = bool(r.get("stalled"))
     return rec
 
 
 def references(req):
-    return increq.reference(req, False), increq.reference(req, True)
+    return increq.reference(req, False), increq.reference(req, True), increq.reference(req, True, no_source_fail=True)
 
 
 def _explore_job(job):
